@@ -7,6 +7,7 @@ import (
 	"math"
 	"testing"
 
+	"github.com/DataDog/sketches-go/dataset"
 	"github.com/DataDog/sketches-go/ddsketch"
 	"github.com/DataDog/sketches-go/ddsketch/mapping"
 	"github.com/DataDog/sketches-go/ddsketch/store"
@@ -211,5 +212,19 @@ func TestRegression_C17_F10_ChangeMappingKeepsWeightWithLargeTargetOffset(t *tes
 	c := s.ChangeMapping(tgt, store.NewDenseStore(), store.NewDenseStore(), 1)
 	if got := c.GetCount(); math.Abs(got-1000) > 1e-6 {
 		t.Fatalf("F10: total weight %v after ChangeMapping, 1000 before", got)
+	}
+}
+
+func TestRegression_C20_F11_DatasetNaNQuantile(t *testing.T) {
+	d := dataset.NewDataset()
+	d.Add(1)
+	d.Add(2)
+	defer func() {
+		if r := recover(); r != nil {
+			t.Fatalf("F11: a NaN quantile made the dataset panic: %v", r)
+		}
+	}()
+	if lo, hi, q := d.LowerQuantile(math.NaN()), d.UpperQuantile(math.NaN()), d.Quantile(math.NaN()); !math.IsNaN(lo) || !math.IsNaN(hi) || !math.IsNaN(q) {
+		t.Fatalf("F11: quantiles at NaN = %v %v %v, want NaN", lo, hi, q)
 	}
 }
